@@ -90,6 +90,8 @@ def for_property(pid, repo, seed=0):
     filt = ' '.join([pid.lower() + '_'] + RELATED.get(pid, []))
     r = run(repo, filt, seed)
     r['witnesses'] = [w for w in r['witnesses'] if w['property'] == pid]
+    # drivers of this property that had to be left out because they do not compile against the tree under test
+    r['excluded_relevant'] = [d for d in r.get('excluded_drivers', []) if any(fl.startswith(d + '_') or fl.rstrip('_') == d or fl.startswith(d) for fl in filt.split())]
     return r
 
 
